@@ -5,6 +5,7 @@ import ast
 from .. import AnalysisError
 from ..astutil import src, call_name, dotted, walk_local, try_fold, ancestors
 from ..fn import FA
+from ..normal import canon_expr
 from ..poly import poly_of, NotPoly, Poly
 
 META = {
@@ -26,7 +27,7 @@ META = {
         'npix2+nadd2)), stores rows [0,nrows1) and [nrows1,nrows) with column slices of the sources\' own widths starting '
         'at nadd_i, at most one nadd_i non-zero with value |pixshift|, and has no return path that bypasses this. '
         'C16.NO-MEMO - readspec and the file-location helpers it calls keep no module-level memo. C16.LOCKSTEP also: the request vectors are filled by position, never through a mask on the VALUE of another request vector; C16.ROWSEL also: on the znum path the row is exactly (fibre-1)*nper + znum - 1 (polynomial normal form over all reaching definitions). NOT decided: correctness of file location itself (spec_path, latest_mjd), optional files present for some plates only, the align arithmetic.'),
-    'floors': {'C16.INV-PERM': 3, 'C16.REORDER-ALL': 5, 'C16.LOCKSTEP': 6, 'C16.ROWSEL': 4, 'C16.LOGLAM': 3, 'C16.TILING': 7, 'C16.NO-MEMO': 3},
+    'floors': {'C16.INV-PERM': 3, 'C16.REORDER-ALL': 5, 'C16.LOCKSTEP': 6, 'C16.ROWSEL': 4, 'C16.LOGLAM': 3, 'C16.TILING': 6, 'C16.NO-MEMO': 3},
 }
 
 SPEC1D = 'pydl/pydlspec2d/spec1d.py'
@@ -90,10 +91,11 @@ def check_readspec(ctx, repo):
     if okacc and len(idxnames) == 1:
         idx = next(iter(idxnames))
         idefs = [st for st in walk_local(f.node) if isinstance(st, ast.Assign) and isinstance(st.targets[0], ast.Name) and st.targets[0].id == idx]
-        good = len(idefs) == 1 and src(idefs[0].value).replace(' ', '').endswith('.nonzero()[0]')
+        iv = canon_expr(idefs[0].value) if len(idefs) == 1 else None          # np.nonzero(m)[0] reads m.nonzero()[0]
+        good = iv is not None and src(iv).replace(' ', '').endswith('.nonzero()[0]')
         mask = None
         if good:
-            m = idefs[0].value.value.func.value      # (<mask>).nonzero
+            m = iv.value.func.value      # (<mask>).nonzero
             names = {n.id for n in ast.walk(m) if isinstance(n, ast.Name)}
             loop = next((a for a in ancestors(idefs[0]) if isinstance(a, ast.For)), None)
             lv = {n.id for n in ast.walk(loop.target) if isinstance(n, ast.Name)} if loop is not None else set()
@@ -341,81 +343,179 @@ def check_spec_append(ctx, repo):
     a = alloc[0].value
     ctx.check('C16.TILING', call_name(a) == 'zeros', f, alloc[0], 'result is allocated by np.zeros (pads only with zeros)',
               msg='the result is allocated by %s, not np.zeros: padding is not zero' % call_name(a), construct='allocation ' + src(a)[:60])
-    shape = a.args[0] if a.args else None
-    ctx.need(isinstance(shape, ast.Tuple) and len(shape.elts) == 2, 'spec_append: allocation shape is not a 2-tuple')
+    # Abstract interpretation of the body: values are affine forms over the input shapes and the shift p, one run per sign of the shift
+    # (p < 0, p == 0, p > 0); a test is decided from the sign, max() of two forms is decided when their difference has a known sign.
+    r1, r2 = Poly.atom('%s.shape[0]' % s1), Poly.atom('%s.shape[0]' % s2)
+    w1, w2 = Poly.atom('%s.shape[1]' % s1), Poly.atom('%s.shape[1]' % s2)
+    pv = Poly.atom('p')
 
-    def atom(e):
-        if isinstance(e, ast.Call) and call_name(e) == 'max' and len(e.args) == 2:
-            return 'max(%s)' % ','.join(sorted(str(P(x)) for x in e.args))
+    class Undecided(Exception):
+        pass
+
+    def sign_of(poly, case):
+        """-1 / 0 / +1 when the sign of an affine form c*p (+ nothing else) is known in this case, else None."""
+        if poly.is_const():
+            c = poly.const_value()
+            return (c > 0) - (c < 0)
+        if poly.atoms() == {'p'} and poly.degree() == 1 and poly.const_value() == 0:
+            c = poly.coeff('p')
+            sp = {'neg': -1, 'zero': 0, 'pos': 1}[case]
+            return ((c > 0) - (c < 0)) * sp
         return None
 
-    def unpacked(name_node):
-        # nrows1, npix1 = spec1.shape
-        for d, v in fa.defs(name_node):
-            if isinstance(d, ast.Assign) and isinstance(d.targets[0], ast.Tuple) and isinstance(d.value, ast.Attribute) and d.value.attr == 'shape':
-                i = [e.id for e in d.targets[0].elts].index(name_node.id)
-                return '%s.shape[%d]' % (src(d.value.value), i)
-        return None
+    def interpret(case):
+        env = {shift: Poly.const(0) if case == 'zero' else pv}
+        rec = {'stores': [], 'shape': None}
 
-    def P(e):
-        def at(x):
-            if isinstance(x, ast.Name):
-                u = unpacked(x)
-                if u:
-                    return u
-                if x.id in ('nadd1', 'nadd2'):
-                    return x.id
-            return atom(x)
+        def mx(polys):
+            best = polys[0]
+            for q in polys[1:]:
+                sg = sign_of(q - best, case)
+                if sg is None:
+                    return Poly.atom('max(%s)' % ','.join(sorted(str(x) for x in polys)))
+                if sg > 0:
+                    best = q
+            return best
 
-        def res(x):
-            if x.id in ('nadd1', 'nadd2') or unpacked(x):
+        def P(e):
+            def at(x):
+                if isinstance(x, ast.Name) and x.id in env:
+                    return env[x.id]
+                if isinstance(x, ast.Call) and call_name(x) == 'max' and isinstance(x.func, ast.Name) and len(x.args) >= 2 and not x.keywords:
+                    return mx([P(y) for y in x.args])
+                if isinstance(x, ast.Call) and call_name(x) in ('abs', 'absolute', 'fabs') and len(x.args) == 1:
+                    q = P(x.args[0])
+                    sg = sign_of(q, case)
+                    if sg is None:
+                        raise NotPoly(src(x))
+                    return q if sg >= 0 else -q
+                if isinstance(x, ast.Subscript) and isinstance(x.value, ast.Attribute) and x.value.attr == 'shape' and isinstance(x.value.value, ast.Name) \
+                        and isinstance(try_fold(x.slice), int):
+                    return Poly.atom('%s.shape[%d]' % (x.value.value.id, try_fold(x.slice)))
+                if isinstance(x, ast.IfExp):
+                    return P(x.body) if truth(x.test) else P(x.orelse)
+                if isinstance(x, ast.Name):
+                    raise NotPoly('name %s has no value here' % x.id)
                 return None
-            return fa.resolve(x)
-        return poly_of(e, atom=at, resolve=res)
+            return poly_of(e, atom=at, resolve=None)
+
+        def truth(t):
+            if isinstance(t, ast.BoolOp):
+                vals = [truth(v) for v in t.values]
+                return all(vals) if isinstance(t.op, ast.And) else any(vals)
+            if isinstance(t, ast.UnaryOp) and isinstance(t.op, ast.Not):
+                return not truth(t.operand)
+            if isinstance(t, ast.Compare) and len(t.ops) == 1:
+                sg = sign_of(P(t.left) - P(t.comparators[0]), case)
+                if sg is None:
+                    raise Undecided(src(t))
+                op = t.ops[0]
+                return {ast.Lt: sg < 0, ast.LtE: sg <= 0, ast.Gt: sg > 0, ast.GtE: sg >= 0, ast.Eq: sg == 0, ast.NotEq: sg != 0}[type(op)] \
+                    if type(op) in (ast.Lt, ast.LtE, ast.Gt, ast.GtE, ast.Eq, ast.NotEq) else _undecided(t)
+            if isinstance(t, ast.Name) and t.id in env:
+                sg = sign_of(env[t.id], case)
+                if sg is None:
+                    raise Undecided(src(t))
+                return sg != 0
+            raise Undecided(src(t))
+
+        def _undecided(t):
+            raise Undecided(src(t))
+
+        def run_block(stmts):
+            for st in stmts:
+                if isinstance(st, ast.Expr) and isinstance(st.value, ast.Constant):
+                    continue
+                if isinstance(st, ast.Assign):
+                    tg = st.targets
+                    if len(tg) == 1 and isinstance(tg[0], ast.Tuple) and isinstance(st.value, ast.Attribute) and st.value.attr == 'shape' \
+                            and isinstance(st.value.value, ast.Name) and all(isinstance(e_, ast.Name) for e_ in tg[0].elts):
+                        for k_, e_ in enumerate(tg[0].elts):
+                            env[e_.id] = Poly.atom('%s.shape[%d]' % (st.value.value.id, k_))
+                        continue
+                    if all(isinstance(t_, ast.Name) for t_ in tg):
+                        if any(t_.id == out for t_ in tg):
+                            sh = st.value.args[0] if isinstance(st.value, ast.Call) and st.value.args else None
+                            if not (isinstance(sh, ast.Tuple) and len(sh.elts) == 2):
+                                raise NotPoly('allocation shape is not a 2-tuple')
+                            rec['shape'] = (P(sh.elts[0]), P(sh.elts[1]))
+                            continue
+                        v = P(st.value)
+                        for t_ in tg:
+                            env[t_.id] = v
+                        continue
+                    if len(tg) == 1 and isinstance(tg[0], ast.Subscript) and isinstance(tg[0].value, ast.Name) and tg[0].value.id == out:
+                        sl = tg[0].slice
+                        if not (isinstance(sl, ast.Tuple) and len(sl.elts) == 2 and all(isinstance(x, ast.Slice) and x.step is None for x in sl.elts)) \
+                                or rec['shape'] is None:
+                            raise NotPoly('store is not [row slice, column slice]')
+                        rs, cs = sl.elts
+                        z = Poly.const(0)
+                        rec['stores'].append((P(rs.lower) if rs.lower is not None else z, P(rs.upper) if rs.upper is not None else rec['shape'][0],
+                                              P(cs.lower) if cs.lower is not None else z, P(cs.upper) if cs.upper is not None else rec['shape'][1],
+                                              src(st.value), st))
+                        continue
+                    raise NotPoly('statement not understood: ' + src(st)[:50])
+                if isinstance(st, ast.AugAssign) and isinstance(st.target, ast.Name) and st.target.id in env:
+                    env[st.target.id] = P(ast.BinOp(left=ast.Name(id=st.target.id, ctx=ast.Load()), op=st.op, right=st.value))
+                    continue
+                if isinstance(st, ast.If):
+                    if run_block(st.body if truth(st.test) else st.orelse):
+                        return True
+                    continue
+                if isinstance(st, ast.Return):
+                    rec['returned'] = st
+                    return True
+                if isinstance(st, ast.Pass):
+                    continue
+                raise NotPoly('statement not understood: ' + src(st)[:50])
+            return False
+        body = [st for st in f.node.body]
+        run_block(body)
+        return rec, mx
+    issues = {'rows': [], 'cols': [], 'values': [], 'rowtile': [], 'coltile': []}
+    anchor = {}
     try:
-        rows, cols = P(shape.elts[0]), shape.elts[1]
-        r1, r2 = Poly.atom('%s.shape[0]' % s1), Poly.atom('%s.shape[0]' % s2)
-        w1, w2 = Poly.atom('%s.shape[1]' % s1), Poly.atom('%s.shape[1]' % s2)
-        n1, n2 = Poly.atom('nadd1'), Poly.atom('nadd2')
-        ctx.check('C16.TILING', rows == r1 + r2, f, alloc[0], 'allocated rows = nrows1 + nrows2 [%s]' % rows,
-                  msg='allocated rows %s != nrows1 + nrows2' % rows, construct='rows %s' % rows)
-        cexpr = fa.deep(cols)
-        okc = isinstance(cexpr, ast.Call) and call_name(cexpr) == 'max' and len(cexpr.args) == 2 and {P(x) for x in cexpr.args} == {w1 + n1, w2 + n2}
-        ctx.check('C16.TILING', okc, f, alloc[0], 'allocated columns = max(npix1 + nadd1, npix2 + nadd2)',
-                  msg='allocated columns are %s, expected max(npix1+nadd1, npix2+nadd2)' % src(cexpr)[:60], construct='cols ' + src(cexpr)[:60])
-        stores = [st for st in walk_local(f.node) if isinstance(st, ast.Assign) and isinstance(st.targets[0], ast.Subscript)
-                  and isinstance(st.targets[0].value, ast.Name) and st.targets[0].value.id == out]
-        ctx.need(len(stores) == 2, 'spec_append: expected two block stores, found %d' % len(stores))
-        got = []
-        for st in stores:
-            sl = st.targets[0].slice
-            ctx.need(isinstance(sl, ast.Tuple) and len(sl.elts) == 2 and all(isinstance(x, ast.Slice) for x in sl.elts), 'spec_append: store is not [rows, cols] slices')
-            rs, cs = sl.elts
-            z = Poly.const(0)
-            got.append((P(rs.lower) if rs.lower is not None else z, P(rs.upper), P(cs.lower) if cs.lower is not None else z, P(cs.upper), src(st.value)))
-        got.sort(key=lambda g: 0 if g[4] == s1 else 1)
-        (a_lo, a_hi, ac_lo, ac_hi, av), (b_lo, b_hi, bc_lo, bc_hi, bv) = got
-        ctx.check('C16.TILING', av == s1 and bv == s2, f, stores[0], 'the two stores write spec1 and spec2 themselves',
-                  msg='the stored values are %s and %s, expected the two inputs' % (av, bv), construct='stored values')
-        ctx.check('C16.TILING', a_lo == Poly.const(0) and a_hi == r1 and b_lo == r1 and b_hi == r1 + r2, f, stores[0],
-                  'row ranges [0, nrows1) and [nrows1, nrows1+nrows2): disjoint and exhaustive',
-                  msg='row ranges [%s,%s) and [%s,%s) do not tile the result' % (a_lo, a_hi, b_lo, b_hi), construct='row tiling')
-        ctx.check('C16.TILING', ac_lo == n1 and ac_hi - ac_lo == w1 and bc_lo == n2 and bc_hi - bc_lo == w2, f, stores[1],
-                  'column slices start at nadd_i and have the sources\' own widths',
-                  msg='column slices [%s,%s) / [%s,%s) do not have start nadd_i and width npix_i' % (ac_lo, ac_hi, bc_lo, bc_hi), construct='column tiling')
+        for case in ('neg', 'zero', 'pos'):
+            rec, mx = interpret(case)
+            ret = rec.get('returned')
+            if ret is not None and ret in early:
+                continue                                   # judged above
+            ctx.need(rec['shape'] is not None and len(rec['stores']) == 2, 'spec_append: expected an allocation and two block stores on the path with pixshift %s' % case)
+            off1 = -pv if case == 'neg' else Poly.const(0)
+            off2 = pv if case == 'pos' else Poly.const(0)
+            rows, cols = rec['shape']
+            if rows != r1 + r2:
+                issues['rows'].append('pixshift %s: rows %s' % (case, rows))
+            want_cols = mx([w1 + off1, w2 + off2])
+            if cols != want_cols:
+                issues['cols'].append('pixshift %s: columns %s, expected %s' % (case, cols, want_cols))
+            got = sorted(rec['stores'], key=lambda g: 0 if g[4] == s1 else 1)
+            (a_lo, a_hi, ac_lo, ac_hi, av, ast1), (b_lo, b_hi, bc_lo, bc_hi, bv, ast2) = got
+            anchor['st1'], anchor['st2'] = ast1, ast2
+            if not (av == s1 and bv == s2):
+                issues['values'].append('pixshift %s: stored values %s, %s' % (case, av, bv))
+            if not (a_lo == Poly.const(0) and a_hi == r1 and b_lo == r1 and b_hi == r1 + r2):
+                issues['rowtile'].append('pixshift %s: row ranges [%s,%s) and [%s,%s)' % (case, a_lo, a_hi, b_lo, b_hi))
+            if not (ac_lo == off1 and ac_hi - ac_lo == w1 and bc_lo == off2 and bc_hi - bc_lo == w2):
+                issues['coltile'].append('pixshift %s: column slices [%s,%s) / [%s,%s), expected starts %s / %s and the inputs\' own widths'
+                                         % (case, ac_lo, ac_hi, bc_lo, bc_hi, off1, off2))
     except NotPoly as e:
         raise AnalysisError('C16: spec_append shapes are not affine: %s' % e)
-    # nadd definitions
-    defs = {'nadd1': [], 'nadd2': []}
-    for st in walk_local(f.node):
-        if isinstance(st, ast.Assign) and isinstance(st.targets[0], ast.Name) and st.targets[0].id in defs:
-            conds = [(a, any(st is b or st in list(ast.walk(b)) for b in a.body)) for a in ancestors(st) if isinstance(a, ast.If)]
-            defs[st.targets[0].id].append((src(st.value), [('' if inb else 'not ') + src(a.test) for a, inb in conds]))
-    want1 = sorted([('0', []), ('-%s' % shift, ['%s < 0' % shift, '%s != 0' % shift])])
-    want2 = sorted([('0', []), (shift, ['not %s < 0' % shift, '%s != 0' % shift])])
-    ctx.check('C16.TILING', sorted(defs['nadd1']) == want1 and sorted(defs['nadd2']) == want2, f, f.node,
-              'nadd1 = -pixshift only when pixshift < 0, nadd2 = pixshift only when pixshift > 0, otherwise 0 (at most one is non-zero, value |pixshift|)',
-              msg='offsets nadd1/nadd2 are defined as %s / %s' % (defs['nadd1'], defs['nadd2']), construct='nadd definitions')
+    except Undecided as e:
+        raise AnalysisError('C16: spec_append: the test `%s` cannot be decided from the sign of the pixel shift' % e)
+    st1, st2 = anchor.get('st1', alloc[0]), anchor.get('st2', alloc[0])
+    ctx.check('C16.TILING', not issues['rows'], f, alloc[0], 'allocated rows = nrows1 + nrows2 (for negative, zero and positive shift)',
+              msg='allocated rows are not nrows1 + nrows2: %s' % '; '.join(issues['rows']), construct='rows')
+    ctx.check('C16.TILING', not issues['cols'], f, alloc[0], 'allocated columns = max(npix1 + offset1, npix2 + offset2), offsets = (|p|, 0) for p < 0, (0, p) for p > 0',
+              msg='allocated columns are wrong: %s' % '; '.join(issues['cols']), construct='cols')
+    ctx.check('C16.TILING', not issues['values'], f, st1, 'the two stores write spec1 and spec2 themselves',
+              msg='the stored values are not the two inputs: %s' % '; '.join(issues['values']), construct='stored values')
+    ctx.check('C16.TILING', not issues['rowtile'], f, st1, 'row ranges [0, nrows1) and [nrows1, nrows1+nrows2): disjoint and exhaustive',
+              msg='row ranges do not tile the result: %s' % '; '.join(issues['rowtile']), construct='row tiling')
+    ctx.check('C16.TILING', not issues['coltile'], f, st2,
+              'column slices start at the offset of their input (-pixshift for spec1 when pixshift < 0, pixshift for spec2 when pixshift > 0, else 0) and have the sources\' own widths',
+              msg='column slices are wrong: %s' % '; '.join(issues['coltile']), construct='column tiling')
 
 
 def check_no_memo(ctx, repo):
